@@ -156,6 +156,19 @@ class StrV(V):
         return "Str(%r)" % self.text
 
 
+class StrSymV(V):
+    """`&str` with a CONCRETE length and symbolic (or concrete) byte values: the string model of Engine M.
+    Bytes are z3 Int terms; the jobs constrain them to ASCII (0..=127), so byte positions are char positions."""
+    kind = "symstr"
+    ty = "&str"
+
+    def __init__(self, bytes_):
+        self.bytes = [zint(b) for b in bytes_]
+
+    def __repr__(self):
+        return "StrSym(%r)" % ([z3.simplify(b) for b in self.bytes],)
+
+
 class FnV(V):
     """zero-sized function item / tuple-struct constructor used as a function value."""
     kind = "fn"
